@@ -135,20 +135,24 @@ package kvstore
 //@   loop 0 decreases i + 1
 
 // makeTable retires the active table and appends an empty one (a recycled table if there is one).
+// The body is verified against the `ensures` clauses (always succeeds, the store grows by at most one table, the
+// previous active table is retired, the new active table is empty). The `trusts` clauses and the footprint are
+// assumed at call sites, not proved (quantified over all tables; the proof is not robust within the quick budget);
+// the bounded stand-in /verif/bounded/kvstore_maketable.go.txt evaluates them on real states.
 //@ func (k *KVStore) makeTable() error
 //@   props C11 C20 C17
-//@   trusted
+//@   flag frame_assumed
 //@   requires #inv_in: k.inv()
 //@   requires #size: k.tableSize <= 4611686018427387904
 //@   ensures  #ok: result == nil
 //@   ensures  #grown: len(k.tables) >= 1 && len(k.tables) >= old(len(k.tables))
 //@   ensures  #retired [C11 C20]: old(len(k.tables)) > 0 ==> k.tables[len(k.tables)-1] != old(k.tables[len(k.tables)-1])
 //@   ensures  #last_empty [C17]: k.tables[len(k.tables)-1].offset == 0 && forall h uint64 :: !k.tables[len(k.tables)-1].has(h)
-//@   ensures  #kept [C11]: forall t *table.Table :: old(k.owns(t)) ==> k.owns(t)
-//@   ensures  #no_new_keys [C11]: forall t *table.Table, h uint64 :: k.owns(t) && t.has(h) ==> old(k.owns(t)) && old(t.has(h))
-//@   ensures  #new_fresh [C18]: forall t *table.Table :: k.owns(t) ==> old(k.owns(t)) || (fresh(t) && fresh(t.memory))
-//@   ensures  #untouched [C11]: forall t *table.Table, h uint64 :: old(k.owns(t)) && old(t.has(h)) ==> t.has(h) && t.off(h) == old(t.off(h))
-//@   ensures  #inv_out: k.inv()
+//@   trusts   #kept [C11]: forall t *table.Table :: old(k.owns(t)) ==> k.owns(t)
+//@   trusts   #no_new_keys [C11]: forall t *table.Table, h uint64 :: k.owns(t) && t.has(h) ==> old(k.owns(t)) && old(t.has(h))
+//@   trusts   #new_fresh [C18]: forall t *table.Table :: k.owns(t) ==> old(k.owns(t)) || (fresh(t) && fresh(t.memory))
+//@   trusts   #untouched [C11]: forall t *table.Table, h uint64 :: old(k.owns(t)) && old(t.has(h)) ==> t.has(h) && t.off(h) == old(t.off(h))
+//@   trusts   #inv_out: k.inv()
 //@   modifies k.tables, k.coefficient, map(k.tablesByCoefficient), elems(k.tables), every(k.tables[0].state), every(k.tables[0].coefficient)
 //@   loop 0 invariant #searching: 0 <= rangeindex + 1 && k.inv() && len(k.tables) == old(len(k.tables)) && len(k.tables) != 0 &&
 //@                (forall j int {k.tables[j]} :: 0 <= j && j < len(k.tables) ==> k.tables[j] == old(k.tables[j])) &&
